@@ -7,6 +7,8 @@ LEAN_MODULE = "Ctrmml.Properties.C05"
 THEOREMS = ["C05_on_off_sum", "C05_on_time_rule", "C05_on_time_positive_partial", "C05_on_time_zero_counterexample",
             "C05_duration_conservation_partial", "C05_shuffle_underflow_counterexample", "C05_tie_cases", "C05_slur_effect",
             "C05_reverse_rest_effect", "C05_grace_borrows", "C05_shuffle_alternates", "C05_echo_replays", "C05_pitch_rule",
+            "C05_group_live", "C05_tie_group_law", "C05_tie_group_on_time_partial", "C05_tie_group_counterexample",
+            "C05_slur_group_on_time", "C05_reverse_rest_group_on_time", "C05_grace_group_on_time",
             "C05_keysig_table_correct", "C05_getNum_render", "C05_getNum_is_numSpan", "C05_read_duration_render",
             "C05_command_span", "C05_command_span_canonical", "C05_parse_render_partial"]
 LEVEL = "proof"
@@ -18,7 +20,12 @@ TECHNIQUE = ("Lean 4 proof (invariants over Track API call sequences, UInt16 ari
 LEVEL_TEXT = ("Machine-checked theorems over Lean models of Track (track.cpp), Line_Buffer (input.cpp) and MML_Input (mml_input.cpp): on_time+off_time "
               "of every added note is its duration and on_time follows the quantise / early-release rule; total track duration is conserved by every "
               "builder call (ties in their three cases, slurs, rests, echo, reverse rests subtract) under the no-16-bit-wrap hypothesis; pitch rule incl. "
-              "the 15-row key-signature table against the circle of fifths. Reader layer: get_num is proved equal to a state-free function of the rest of the line on every "
+              "the 15-row key-signature table against the circle of fifths. The extended note (a note with its ties, slur, reverse rests, grace borrow; sums over the NOTE/TIE/REST "
+              "events it is recorded in): the law of add_tie on every live extended note in its three cases (tie_group_law: duration = split-off part + new length, key-on = split-off "
+              "part + on_time(new length) under the setting at the tie); for every call sequence note, (settings | ties)*, (untimed calls)*, tie the events last the written durations "
+              "and are keyed on for the rule applied to the TOTAL (tie_group_on_time_partial; extra hypothesis: the earlier ties stand directly behind the note), the statement "
+              "without that hypothesis is FALSE (Q4 c4 v5 ^2 ^4 keys 96 ticks on for 60 instead of 48: D24, counterexample theorem + known finding); slur = legato over the whole "
+              "extended note, reverse rest / grace borrow = duration - d and key-on = min(old key-on, new duration), on every live extended note. Reader layer: get_num is proved equal to a state-free function of the rest of the line on every "
               "buffer and reads every rendered decimal / $-hexadecimal signed numeral exactly; read_duration on every rendered duration form; every covered command "
               "(notes with accidental and duration, r ^ l o < > Q q C s &) consumes exactly its canonical spelling and performs exactly its builder call (command_span); "
               "whole canonical lines of covered commands parse to the builder calls in order with the model's own fuel (parse_render_partial). The other commands rest on "
@@ -29,18 +36,22 @@ LEVEL_NOTE = ("Trusted: Lean kernel (propext, Classical.choice, Quot.sound), the
               "C++ is established by differential testing, not proved), Spec/MmlMeaning (my reading of mml_ref.md), glibc strtol in the C locale. The whole-line "
               "reader theorem is partial: it covers notes, rests, ties, default length, octave, quantise, early release, measure length, shuffle and slur; for R ~ \\ _ k V D % "
               "and the event commands of mml_control / mml_envelope, text -> builder calls is carried by correspondence (all events, references, error messages and positions) "
-              "and by the spec oracle on the implementation's events.")
+              "and by the spec oracle on the implementation's events. Decided per case by the oracle only (not proved): the key-on time of extended notes that start with an echo "
+              "note, and everything about an extended note after one of its ties was recorded as a REST (the builder forgets the note there: D24). The oracle (Spec/MmlMeaning Item) "
+              "prescribes an interval, not a point, where mml_ref.md leaves a choice: Q/q changed inside an extended note, slur across loop commands, tie behind a slur, key-on time "
+              "of a note shortened by R or ~, tie behind a rest; each is explained in the Item comment.")
 RULE = ("typed command sequences over the documented command set rendered canonically on track A (lengths 1..192 incl. non-divisors, dots 0..3, frames incl. "
         "1/255/256/65535, octaves, all 30 key signatures + modifier lists, Q0..9, q0..200, shuffle +-, decimal/hex/signed numbers) with the AST sent along so that "
-        "the spec oracle computes the intended pitches, durations, key-on times and totals; bounded-exhaustive families (all lengths x dots, all key signatures x "
-        "letters x accidentals, Q x short durations, number spellings, numbers at the ends of int in every place the reader computes with a parsed number); multi-track / multi-line / conditional-block layouts; a malformed stream (mutated and random "
+        "the spec oracle computes the intended pitches, durations, key-on times (of every extended note as a whole) and totals; bounded-exhaustive families (all lengths x dots, all key signatures x "
+        "letters x accidentals, Q x short durations, the extended note: Q1..8/q1..4 x 5 note lengths x 0-2 untimed commands before the first or second of 1-2 ties / slurs / R / ~, number spellings, numbers at the ends of int in every place the reader computes with a parsed number); multi-track / multi-line / conditional-block layouts; a malformed stream (mutated and random "
         "lines); direct Track API call sequences. non-trivial = uses a tie, slur, reverse rest, grace, echo, shuffle, key signature, drum mode, dots or frames, "
         "more than one track or line, or is malformed; distinct by request text")
 EXPLANATION = ("theorems over Model/TrackBuilder + Model/Lexer + Model/Mml; correspondence on the events (and references for mmlr) of every track, the error "
                "message with its position, and the tag order; spec oracle = Spec/MmlMeaning.meaning of the generated AST compared with the implementation's events")
 ASSUMPTIONS = ["lines shorter than 2^32 characters; char is signed; glibc strtol, C locale",
                "duration_conservation: no tied group exceeds 65535 ticks, no duration becomes 0 after shuffle (NoWrap hypothesis; the excluded points are D6b)",
-               "on_time_positive: quantise with d*Q < 8 excluded (D6a)"]
+               "on_time_positive: quantise with d*Q < 8 excluded (D6a)",
+               "tie_group_on_time: the ties before the last one stand directly behind the note (no event-recording call in between); otherwise the split-off part stays keyed on in full (D24, tie_group_law)"]
 
 LETTERS = "abcdefgh"
 SCALES = ["C", "G", "D", "A", "E", "B", "F+", "C+", "F", "B-", "E-", "A-", "D-", "G-", "C-",
@@ -324,7 +335,7 @@ CORPUS_TEXT = [
     ["A D40 o2147483647 c"], ["A o2147483647 ~c"], ["A c o2147483647 ~c:1."],
     # unit-test shapes
     ["A cdefgab>c"], ["A o4l4cdefgab>c"], ["A c4d8e16f32g2.a4..b4...", "A r4^4&c^8"], ["ABC {c/d+/g} {d/f/a}"], ["A [cd/ef]4 L gab"],
-    ["A c4 r4 ^4"], ["A c4 v5 ^4"], ["A Q4 c4 v5 ^4"], ["A Q4 c4 v5 ^4 ^4"], ["A c4 & d4"], ["A r4 & d4"], ["A c4 ] R8"], ["A c4 R4"], ["A c4 R8"], ["A r4 R4"],
+    ["A c4 r4 ^4"], ["A c4 v5 ^4"], ["A Q4 c4 v5 ^4"], ["A Q4 c4 v5 ^4 ^4"], ["A Q6 c4 v10 ^4"], ["A Q4 c4 v5 ^2 ^4"], ["A q30 c:10 @1 ^ ^"], ["A Q4 c4 v5 ^4 & d4"], ["A c4 & d4"], ["A r4 & d4"], ["A c4 ] R8"], ["A c4 R4"], ["A c4 R8"], ["A r4 R4"],
     ["A \\=2,3 c4d\\e\\"], ["A \\=1,0 c\\"], ["A \\=-1,2 c\\ r\\"], ["A \\=11,2 cdefgabcdefg\\"], ["A _{c} cdefgab"], ["A _{D} _{=f} cdefgab"], ["A _{+cfg} cfg"],
     ["A _{} c"], ["A _{h} c"], ["A _{+i} c"], ["A _{+c"], ["A _{ +c f }cf"], ["A _{-h} h b"], ["A _{F} h b"], ["A _{+C} c"],
     ["A cx10 c$10 c$10e"], ["A c 4 d\t8"], ["A c:$20"], ["A c$-4"], ["A c0"], ["A c-4"], ["A c=-4"], ["A c:-5"], ["A c$0x10 c$0x c$0xg"], ["A o$ c"],
@@ -343,6 +354,14 @@ CORPUS_API = [
     "tapi n:0:24 S", "tapi r:24 S", "tapi n:0:24 R:24", "tapi n:0:24 R:12", "tapi ev:6:2:0:0 R:1", "tapi R:1", "tapi E:2:3 n:0:24 n:2:24 e:24",
     "tapi K:43 G:97 G:105", "tapi K:2b6366 G:99 G:102", "tapi K:5a", "tapi K:- ", "tapi M:99:1 M:105:1 M:99:2", "tapi Q:1:3 n:0:2", "tapi Q:9:8 Q:0:8 Q:3:0",
      "tapi G:65", "tapi s:-32768 n:0:24 n:0:24", "tapi n:0:65535 t:1", "tapi D:65535 n:7:24", "tapi ref:3:4 n:0:24 ref:5:6 t:4",
+]
+
+# the extended note, with the AST (the oracle judges them): the input of seeded change C05-3, the three faces of D24, R / ~ / & / Q change / tie behind a rest
+CORPUS_TYPED = [
+    "Q/6 n/2/n/L/4/0 x/vol/10 t/L/4/0", "Q/4 n/2/n/L/4/0 x/vol/5 t/L/2/0 t/L/4/0", "q/30 n/2/n/F/10/0 x/ins/1 t/D/0 t/D/0",
+    "Q/4 n/2/n/L/4/0 x/vol/5 t/L/4/0 S n/3/n/L/4/0", "Q/4 n/2/n/L/4/0 R/L/8/0", "Q/4 n/2/n/L/4/0 g/3/n/L/8/0", "Q/4 n/2/n/L/4/0 t/L/4/0 x/pan/3 R/L/8/0",
+    "Q/4 n/2/n/L/4/0 S t/L/4/0", "Q/4 n/2/n/L/4/0 Q/8 t/L/4/0", "Q/8 n/2/n/L/4/0 x/vol/3 Q/2 t/L/4/0", "Q/4 n/2/n/L/4/0 r/L/4/0 t/L/4/0 t/L/4/0 n/3/n/L/4/0",
+    "Q/4 t/L/4/0 S n/2/n/L/4/0", "q/3 n/2/n/L/4/0 x/loopEnd/2 S", "q/3 n/2/n/L/4/0 x/loopStart/- t/L/4/0 S", "E/1/2 n/2/n/L/4/0 e/L/4/0 t/L/4/0", "Q/5 n/2/n/L/4/0 S x/vol/1 R/F/3/0",
 ]
 
 MML_ALPHABET = "abcdefghr^&o<>lQqR~Cs\\[]/L*'@_kKv()VpEMPGDtT{}|;%:.$x+-=, \t0123456789#"
@@ -422,6 +441,25 @@ def api_case(rng):
     return "tapi " + " ".join(ops)
 
 
+def extended_note_cases():
+    arts = [Cmd("Q", Num(n)) for n in range(1, 9)] + [Cmd("q", Num(n)) for n in range(1, 5)]
+    notes = [("L", Num(4), 0), ("L", Num(8), 1), ("L", Num(8), 0), ("L", Num(3), 0), ("F", Num(9), 1)]
+    inter1 = [Cmd("x", "vol", Num(10)), Cmd("x", "ins", Num(5)), Cmd("x", "pan", Num(3)), Cmd("o", Num(5)), Cmd(">"), Cmd("<"),
+              Cmd("l", ("L", Num(8), 0))]
+    inters = [[]] + [[a] for a in inter1] + [[a, b] for a in inter1 for b in inter1]
+    t4, t16, td, t8d = Cmd("t", ("L", Num(4), 0)), Cmd("t", ("L", Num(16), 0)), Cmd("t", ("D", 0)), Cmd("t", ("L", Num(8), 1))
+    sl, rr = Cmd("S"), Cmd("R", ("F", Num(2), 0))
+    gr = Cmd("g", 3, "n", ("F", Num(2), 0))
+    tails = [[t4], [t16], [td], [sl], [t4, t8d], [td, td], [t4, sl], [sl, t4], [rr], [t4, rr], [gr], [sl, rr]]
+    for art in arts:
+        for nd in notes:
+            note = Cmd("n", 2, "n", nd)
+            for tail in tails:
+                for inter in inters:
+                    for pos in range(len(tail) if inter else 1):
+                        yield [art, note] + tail[:pos] + inter + tail[pos:] + [Cmd("n", 4, "n", ("L", Num(4), 0))]
+
+
 def text_case(lines, cmd="mml"):
     return "%s %s" % (cmd, " ".join(hx(l) for l in lines))
 
@@ -433,6 +471,9 @@ def cases(rng, tier):
         yield Case(text_case(lines, "mmlr"), ("corpus", "references"), "corpus")
     for c in CORPUS_API:
         yield Case(c, ("corpus", "api"), "corpus")
+    for toks in CORPUS_TYPED:
+        cmds = [cmd_of_tok(t) for t in toks.split(" ")]
+        yield Case(req_of(cmds), tags_of(cmds) + ["corpus"], "corpus")
     # ---- bounded-exhaustive families
     arts = [[], [Cmd("Q", Num(4))], [Cmd("Q", Num(7))], [Cmd("q", Num(1))], [Cmd("q", Num(5))], [Cmd("Q", Num(1))]]
     for n in range(1, 193):
@@ -479,6 +520,15 @@ def cases(rng, tier):
             for pat in ["A o%s c", "A o%s < c", "A o%s > c", "A o%s >> c", "A o%s << c", "A o%s <", "A o%s >>", "A c:%s", "A c:%s.", "A c:%s..", "A c:%s...",
                         "A l:%s. c", "A r:%s. ^:%s..", "A (%s", "A )%s", "A (%s )%s", "A D40 o%s c", "A o%s ~c", "A c R:%s.", "A \\:%s.", "A c%s.", "A l%s.. c"]:
                 yield Case(text_case([pat.replace("%s", n)]), ("exh-int-edge", "number-spelling"), "exh-int-edge")
+    # the extended note: Q1..Q8 / q1..q4 x note length x 0-2 commands that are not timed, written before the
+    # first or the second of 1-2 ties / slurs / a reverse rest / a grace note.  The oracle prescribes the key-on
+    # time of the whole extended note (Spec/MmlMeaning `Item`); quick tier: every 10th case, offset by the seed.
+    # (the cases with an event-recording command before the FIRST of two ties / tie + slur are the known finding D24)
+    off = rng.randrange(10)
+    for k, cmds in enumerate(extended_note_cases()):
+        if quick and k % 10 != off:
+            continue
+        yield Case(req_of(cmds), tags_of(cmds) + ["exh-extended-note"], "exh-extended-note")
     # ---- seeded random typed sequences (with AST)
     n = 9000 if quick else 60000
     for i in range(n):
